@@ -277,4 +277,11 @@ theorem lpEstimate_congr_pt {n p : ℕ} {w w' : ℕ → ℚ} {D D' : ℕ → ℕ
     have hi := mem_range.mp hi
     rw [hw i hi, hD i hi a ha, hy i hi]
 
+/-- Taylor coefficients of the bivariate polynomial `Σ c_{k₁k₂} x₁^{k₁} x₂^{k₂}` about
+`(x01, x02)` in units of `h`, indexed like the columns of `design2`. -/
+def taylor2 (d : ℕ) (c : ℕ → ℕ → ℚ) (h x01 x02 : ℚ) (a : ℕ) : ℚ :=
+  let e := (monos2 d).getD a (0, 0)
+  h ^ (e.1 + e.2) * ∑ k1 ∈ range (d + 1), ∑ k2 ∈ range (d + 1 - k1),
+    c k1 k2 * (Nat.choose k1 e.1 : ℚ) * (Nat.choose k2 e.2 : ℚ) * x01 ^ (k1 - e.1) * x02 ^ (k2 - e.2)
+
 end FDA.LP
